@@ -1,7 +1,8 @@
 """C07: py_simulate_model over the full option lattice (exhaustive) x models with/without delays and
 rules.  Correspondence: Model/Dispatch.v (extracted) predicts rejection / simulator kind; the
 implementation is called in a subprocess per batch (a crash is an observation).  Oracle: returned
-or explicit ValueError about the options; shape, time axis, labels, first row."""
+or explicit ValueError about the options; shape, time axis, labels, first row.  The dispatcher model is also evaluated inside
+Coq on every combination (coq/Gen/CasesC07.v, regenerated on every run)."""
 import itertools, json, math
 from harness.common import fhex
 PID = "C07"; COQ_TARGET = "C07"
@@ -135,5 +136,40 @@ def stats(cases):
     from collections import Counter
     return {"per_model": dict(Counter(c["model"] for c in cases)), "exhaustive_option_combinations": 240}
 def extra_checks(ctx):
+    """Besides the counts: the dispatcher model is ALSO evaluated inside Coq on every distinct option combination of the run -- the
+    harness writes coq/Gen/CasesC07.v with one Example per combination, `class (dispatch options) = what the implementation did`
+    (0 rejected with an error about the options, 1 SSAResult, 2 VolumeSSAResult, 3 DelaySSAResult, 4 DelayVolumeSSAResult; for data
+    frames only rejected / returned), closed by vm_compute; reflexivity.  coqc accepting the file cross-checks extraction and the driver."""
+    import os, subprocess, re
+    from harness import common as C
     ended = sum(1 for r in ctx["impl_res"] if isinstance(r, dict) and r.get("outcome") == "returned" and r.get("nrows", 0) < len(r.get("T", [])))
-    return {"coverage": {"exhaustive": True, "results_ended_by_cell_division": ended}}
+    cov = {"exhaustive": True, "results_ended_by_cell_division": ended}
+    seen = {}; fails = []
+    for c, r in zip(ctx["cases"], ctx["impl_res"]):
+        if not isinstance(r, dict) or r.get("outcome") not in ("returned", "ValueError"): continue
+        k = (c["via"], c["stochastic"], c["delay"], c["safe"], c["volume"], c["df"])
+        if r["outcome"] == "ValueError": code = 0
+        elif c["df"]: code = 1
+        else: code = {"SSAResult": 1, "VolumeSSAResult": 2, "DelaySSAResult": 3, "DelayVolumeSSAResult": 4}.get(r.get("type"), 8)
+        seen.setdefault(k, (code, c))
+    B = lambda x: "true" if x else "false"
+    lines = ["(* GENERATED by harness/props/c07.py on every run -- do not edit *)", "From Coq Require Import List.", "From BS Require Import Model.Dispatch.", "",
+             "Definition class (df : bool) (v : verdict) : nat :=",
+             "  match v with RejectOptions => 0 | InternalFault _ => 9",
+             "  | Run k _ _ => if df then 1 else match k with KDet => 1 | KSSA => 1 | KVolSSA => 2 | KDelaySSA => 3 | KDelayVolSSA => 4 end end.", ""]
+    keys = sorted(seen, key=lambda k_: json.dumps(k_, default=str))
+    for n_, k in enumerate(keys):
+        via, st, d, sf, v, df = k; code = seen[k][0]
+        o = "mkOpts %s %s %s %s %s %s %s" % (B(via in ("model", "both")), B(via in ("interface", "both")), B(st), {None: "TNone", False: "TFalse", True: "TTrue"}[d], B(sf),
+                                          {"off": "VOff", "true": "VTrue", "num": "VNumPos", "obj": "VObj", "divobj": "VObj"}[v], B(df))
+        lines.append("Example d_%d : class %s (dispatch (%s)) = %d. Proof. vm_compute. reflexivity. Qed." % (n_, B(df), o, code))
+    gen = os.path.join(C.COQ, "Gen", "CasesC07.v"); os.makedirs(os.path.dirname(gen), exist_ok=True)
+    open(gen, "w").write("\n".join(lines) + "\n")
+    p = subprocess.run(["timeout", "600", "coqc", "-Q", ".", "BS", "Gen/CasesC07.v"], cwd=C.COQ, stdout=subprocess.PIPE, stderr=subprocess.STDOUT, text=True)
+    if p.returncode != 0:
+        m = re.search(r'line (\d+)', p.stdout); ln = int(m.group(1)) if m else 0
+        which = lines[ln - 1][:200] if 0 < ln <= len(lines) else "?"
+        m2 = re.search(r'Example d_(\d+) ', which); kk = keys[int(m2.group(1))] if m2 else keys[0]
+        fails.append((seen[kk][1], "in-Coq evaluation: the dispatcher model evaluated by vm_compute differs from what the implementation did at `%s` (%s)" % (which, p.stdout.strip().splitlines()[-1][:160] if p.stdout.strip() else "coqc failed")))
+    cov.update({"combinations_evaluated_inside_coq": len(keys), "in_coq_examples": len(keys)})
+    return {"oracle_fail": fails, "coverage": cov}
